@@ -26,7 +26,7 @@ ASSUMPTIONS = [
 COMPONENTS = {'real': ['yldprolog.compiler', 'yldprolog.engine query/register_function/match_dynamic, module-level unify/get_value', 'generated clause code'],
               'stub': ['consumer schedule (enumerate / close / drop / re-run)', 'native predicates built from the fact tables, with raise switches'],
               'oracle': ['twin engine A (all compiled) under the same schedule; identity of the injected exception object; argument types seen by the natives']}
-REQUIRED_PROBES = ('raise_fired_under_evaluate_bounded', 'clear_phase', 'late_script_appended_to_native', 'engine_with_earlier_registrations', 'style_decorated', 'style_delegate', 'twin_comparisons', 'native_invocations', 'style_inferred', 'style_explicit', 'style_variadic', 'yield_true', 'yield_false',
+REQUIRED_PROBES = ('twin_through_evaluate_bounded', 'natives_registered_over_script_definitions', 'raise_fired_under_evaluate_bounded', 'clear_phase', 'late_script_appended_to_native', 'engine_with_earlier_registrations', 'style_decorated', 'style_delegate', 'twin_comparisons', 'native_invocations', 'style_inferred', 'style_explicit', 'style_variadic', 'yield_true', 'yield_false',
                    'raise_fired', 'raise_arrived_same_object', 'native_next_to_dynamic_facts', 'abandon_close', 'abandon_drop')
 TERM_TYPES = {'Atom', 'Variable', 'Functor', 'int', 'str', 'float', 'NoneType', 'bool'}
 
@@ -43,14 +43,14 @@ def gen(seed, tier):
     world['native'] = [x for x in world['native'] if (x[0], x[1]) in called or rng.random() < 0.3]
     for (n, a) in called:
         if rng.random() < 0.5 and not any(x[0] == n and x[1] == a for x in world['native']):
-            world['native'].append([n, a, rng.choice(['inferred', 'explicit', 'variadic', 'decorated', 'prebuilt', 'explicit-varargs', 'delegate', 'partial', 'bound-method', 'callable-object', 'prebuilt-foreign']), rng.random() < 0.5])
+            world['native'].append([n, a, rng.choice(['inferred', 'explicit', 'variadic', 'decorated', 'prebuilt', 'explicit-varargs', 'delegate', 'delegate-bounded', 'partial', 'bound-method', 'callable-object', 'prebuilt-foreign']), rng.random() < 0.5])
     if not world['native']:
         n, a = rng.choice(called or keys)
-        world['native'] = [[n, a, rng.choice(['inferred', 'explicit', 'variadic', 'decorated', 'prebuilt', 'explicit-varargs', 'delegate', 'partial', 'bound-method', 'callable-object', 'prebuilt-foreign']), rng.random() < 0.5]]
+        world['native'] = [[n, a, rng.choice(['inferred', 'explicit', 'variadic', 'decorated', 'prebuilt', 'explicit-varargs', 'delegate', 'delegate-bounded', 'partial', 'bound-method', 'callable-object', 'prebuilt-foreign']), rng.random() < 0.5]]
     if world.get('has_n'):
         # the native-only predicate of C03 gets a compiled twin here
         world['facts'] = world['facts'] + [['n', 1, [[['a', 'a']], [['a', 'c']], [['f', 'f', [['v', 0]]]]]]]
-        world['native'] = world['native'] + [['n', 1, rng.choice(['inferred', 'explicit', 'variadic', 'decorated', 'prebuilt', 'explicit-varargs', 'delegate', 'partial', 'bound-method', 'callable-object', 'prebuilt-foreign']), rng.random() < 0.5]]
+        world['native'] = world['native'] + [['n', 1, rng.choice(['inferred', 'explicit', 'variadic', 'decorated', 'prebuilt', 'explicit-varargs', 'delegate', 'delegate-bounded', 'partial', 'bound-method', 'callable-object', 'prebuilt-foreign']), rng.random() < 0.5]]
         world['has_n'] = False
     if rng.random() < 0.5:
         # natives "next to dynamic facts": make sure some native predicate also has dynamic facts
@@ -74,7 +74,7 @@ def gen(seed, tier):
         if cands:
             n, a = cands[0][:2]
             late = [n, a, [[['a', 'late%d' % j]] + [['a', 'x']] * (a - 1) if a else [] for j in range(rng.randrange(1, 3))]]
-    return {'world': world, 'faults': 'all', 'warmup': rng.random() < 0.4, 'late': late, 'clear_phase': rng.random() < 0.3}
+    return {'world': world, 'faults': 'all', 'warmup': rng.random() < 0.4, 'late': late, 'clear_phase': rng.random() < 0.3, 'shadow': rng.random() < 0.25}
 
 
 sample_view = c03.sample_view
@@ -93,11 +93,14 @@ def execute(plan):
         ypA, qargsA, _, _ = c03.build_engine(worldA, sim, make_simyp(sim), ctlA)
         # with 'warmup' engine B has a history: the predicates were first supplied by other Python functions (no
         # solutions, same registration style) and called, before the real ones were registered
-        ypB, qargsB, _, _ = c03.build_engine(world, sim, make_simyp(sim), ctlB, warmup=plan.get('warmup'))
+        ypB, qargsB, _, _ = c03.build_engine(world, sim, make_simyp(sim), ctlB, warmup=plan.get('warmup'), shadow=plan.get('shadow'))
     except c03.Discard as d:
         return log.result(discard=str(d))
     if plan.get('warmup'):
         log.count('engine_with_earlier_registrations')
+    if plan.get('shadow'):
+        # engine B loaded the all-compiled script first; the registrations replace those definitions
+        log.count('natives_registered_over_script_definitions')
     if plan.get('late'):
         from yldprolog.compiler import compile_prolog_from_string
         n_, a_, rows_ = plan['late']
@@ -173,7 +176,7 @@ def execute(plan):
             # the same with the query consumed through evaluate_bounded (which absorbs RuntimeError, and only that)
             faults += [['raise-bounded', j, ('pre', 'resume')[j % 2], core.INJECTED_KINDS[j % 4]] for j in range(1, min(ncalls, 6) + 1)]
         for fault in faults:
-            if fault[0] == 'clear':
+            if fault[0] in ('clear', 'bounded-twin'):
                 continue
             if fault[0] == 'abandon':
                 log.count('abandon_' + fault[2])
@@ -247,6 +250,43 @@ def execute(plan):
                 if not clean() and not end.startswith('exc:'):
                     log.violation('bindings-left-after-native-exception', {'fault': fault})
                     return log.result()
+        if plan['faults'] in ('all', [['bounded-twin']]):
+            # both engines consumed through evaluate_bounded (a native of the 'delegate-bounded' style makes a bounded
+            # call of its own from inside): same answers, and the interpreter's recursion limit is what it was
+            lim0 = sys.getrecursionlimit()
+            outs = []
+            for yp_, qa_ in ((ypA, qargsA), (ypB, qargsB)):
+                seen_ = []
+
+                class StopProj2(Exception):
+                    pass
+
+                def proj_(_, qa_=qa_, seen_=seen_):
+                    if len(seen_) >= c03.ANSWER_CAP:
+                        raise StopProj2()
+                    seen_.append(c03.observe_answer(sim, qa_))
+                try:
+                    yp_.evaluate_bounded(yp_.query(name, qa_), proj_, recursion_limit=lim0)
+                    end_ = 'returned'
+                except StopProj2:
+                    end_ = 'cap'
+                except RecursionError:
+                    end_ = 'exc:RecursionError'
+                except Exception as e:
+                    end_ = 'exc:' + type(e).__name__
+                outs.append((seen_, end_, sys.getrecursionlimit()))
+                sys.setrecursionlimit(lim0)
+            del ctlB['args'][:]
+            log.count('cases'); log.count('twin_through_evaluate_bounded')
+            log.ev('bounded-twin', outs[0][1], len(outs[0][0]), outs[1][1], len(outs[1][0]))
+            if 'exc:RecursionError' in (outs[0][1], outs[1][1]):
+                raise c03.Discard('cyclic-term')
+            if outs[0][2] != lim0 or outs[1][2] != lim0:
+                log.violation('recursion-limit-changed', {'step': ['bounded-twin'], 'before': lim0, 'after_compiled': outs[0][2], 'after_with_natives': outs[1][2]})
+                return log.result()
+            if outs[0][:2] != outs[1][:2]:
+                log.violation('twin-differs', {'step': ['bounded-twin'], 'compiled': {'answers': len(outs[0][0]), 'end': outs[0][1]}, 'with_natives': {'answers': len(outs[1][0]), 'end': outs[1][1]}})
+                return log.result()
         if plan['faults'] == 'all' and twin(None, 'exhaust', ['R_last']) is None:
             return log.result()
         if (plan.get('clear_phase') and plan['faults'] == 'all') or plan['faults'] == [['clear']]:
@@ -282,6 +322,8 @@ def narrow(plan, viol):
         c['faults'] = [f]
     elif f and f[0] == 'clear':
         c['faults'] = [['clear']]
+    elif f and f[0] == 'bounded-twin':
+        c['faults'] = [['bounded-twin']]
     elif f and f[0] == 'R1':
         c['faults'] = []
     else:
